@@ -73,6 +73,7 @@ PROPS = {
     },
     "C06": {
         "profiles": {"quick": ["mon"], "thorough": ["mon", "monrel"]},
+        "sanitizers": ["miri_topdown"],
         "scale": {"quick": 1, "thorough": 40},
         "floors": {
             "quick": {"compilations": 5000, "conditionings": 50000, "compilations_in_a_used_builder": 1200, "builder_literals": 10000, "compilations_over_spread_labels": 200, "witness_compilations": 2},
@@ -165,6 +166,7 @@ PROPS = {
     },
     "C11": {
         "profiles": {"quick": ["mon"], "thorough": ["mon", "monrel"]},
+        "sanitizers": ["miri_semantic", "asan_semantic"],
         "scale": {"quick": 1, "thorough": 30},
         "floors": {
             "quick": {"hash_checks": 20000, "bdd_representations": 2000, "sdd_representations": 1300, "ddnnf_representations": 300,
